@@ -172,6 +172,7 @@ func genC20(c *Ctx) {
 	}
 	c20Concurrent(c)
 	c20Middleware(c)
+	c20Rollover(c)
 }
 
 func refWhitelisted(blocks string, ip string) bool {
